@@ -14,7 +14,16 @@ Tie (A): start-ups with 2-3 indexed kinds (+ an optional plain kind) run the REA
 `watching.infinite_watch` replaced by a scripted stream (staggered listings, slow index functions,
 re-listings, suspended `make_toggle` calls). Labels are logged at the code's atomic segments and
 replayed through the Lean transition system (`C17.gate`); the oracle reads only the stream log, the
-index-function call log and the `@kopf.on.event` handler log.
+index-function call log and the `@kopf.on.event` handler log; `handle` is logged where
+`processing.process_resource_causes` is entered (on-event AND change handlers, daemons, timers).
+
+Part S (end to end, harness/props/sim_c17.py): a real `kopf.operator()` against the fake API server —
+real discovery/`revise_resources` (which kinds are indexed), real `watching.infinite_watch` (where LISTED
+is), real orchestrator — with objects that exist before the start, staggered LIST latencies, slow index
+functions, and on-event / create / resume / update handlers, daemons and timers in random subsets per
+kind. Nothing of kopf is wrapped: the handler functions log their own start and what their own kwargs
+show of every index; the oracle requires every initially listed object of every indexed kind to be
+indexed, and visible to the handler, whenever any of them starts.
 """
 from __future__ import annotations
 
@@ -39,7 +48,9 @@ LEVEL_TEXT = (
     "Lean theorems for all event lists / all label interleavings. INDEX clause: no KeyError inside the index "
     "(run_total), forward/reverse consistency, no empty collections, key uniqueness of all three dicts as invariants; "
     "index = groupBy(documented reference) exactly and unconditionally (mirror; finding F1 is repaired in kopf 5068b98 "
-    "and kept as a regression example + corpus case); the Lean reference reads any Mapping result as the code does "
+    "and kept as a regression example + corpus case), and the key set the other read-only methods (`in`, `len`, truth, "
+    "iteration) answer from is exactly the reference's (key_present_iff; the real methods of Index/Store/OperatorIndices "
+    "are compared with the documented reference by the oracle after every event); the Lean reference reads any Mapping result as the code does "
     "(open finding F2 is a docs-vs-code matter, reported by the oracle only); the keep/remove table incl. the "
     "retries=/timeout= budget. GATE clause: safety for every interleaving with any number of spawn_missing_watchers batches incl. the "
     "empty first batch of a namespaced start-up, watcher deaths and respawns: gate_safe for the START-UP kinds (those "
@@ -51,12 +62,16 @@ LEVEL_TEXT = (
     "ended before LISTED; not repaired: proposals/fix-C17N1). Three broken variants of "
     "the LTS refuted (about mutants, not the code). Tied to the code by differential runs of the real "
     "process_resource_event/indexers (D) and by trace acceptance of real adjust_tasks/spawn_missing_watchers/watcher/"
-    "worker/ToggleSet start-ups — cluster-wide and namespaced — under virtual time (A). The retry/exclusion half of the "
+    "worker/ToggleSet start-ups — cluster-wide and namespaced — under virtual time (A), and end to end by whole-operator "
+    "start-ups against the fake API in which change handlers, daemons and timers (not only on-event handlers) report what "
+    "their own kwargs show of the indices (S; oracle only, nothing of kopf wrapped). The retry/exclusion half of the "
     "Lean reference shares exhausted/lookahead/awake with the model (definitional there); it is checked independently "
     "only by the Python oracle.")
 TIE = ("D: real process_resource_event + OperatorIndexers vs Lean model after every event (views in dict order, "
        "retry memory incl. started); A: real orchestration.adjust_tasks (empty first batch in namespaced mode, later "
-       "revisions, redundant/dead watchers)/watcher/worker/ToggleSet traces accepted by the Lean LTS")
+       "revisions, redundant/dead watchers)/watcher/worker/ToggleSet traces accepted by the Lean LTS (`handle` logged at "
+       "the entry of process_resource_causes); S: real kopf.operator() start-ups on the fake API, observed by the handlers' "
+       "own kwargs (oracle only)")
 THEOREMS = [
     ("Kopf.Props.C17", "Kopf.C17.run_total"),
     ("Kopf.Props.C17", "Kopf.C17.fwd_rev_consistent"),
@@ -64,6 +79,7 @@ THEOREMS = [
     ("Kopf.Props.C17", "Kopf.C17.keys_unique"),
     ("Kopf.Props.C17", "Kopf.C17.mirror"),
     ("Kopf.Props.C17", "Kopf.C17.mirror_exclusions"),
+    ("Kopf.Props.C17", "Kopf.C17.key_present_iff"),
     ("Kopf.Props.C17", "Kopf.C17.others_untouched"),
     ("Kopf.Props.C17", "Kopf.C17.deleted_discards"),
     ("Kopf.Props.C17", "Kopf.C17.mismatch_discards"),
@@ -91,19 +107,32 @@ RULE = ("index: 1-3 @kopf.index handlers (resource x label filter x errors mode 
         "deadlines; per event and handler a scripted result (dict with 0-2 keys from a colliding alphabet incl. None, "
         "scalar incl. falsy and bool/int twins, a non-dict Mapping (kopf.Memo), None, TemporaryError(delay), "
         "PermanentError, arbitrary exception); a case is distinct by its sequence of (event type, per-handler rule "
-        "applied) and non-trivial when it hits a non-set rule, a key collision or a re-keying. gate: a start-up through "
+        "applied) and non-trivial when it hits a non-set rule, a key collision or a re-keying; 8% of the cases have one or "
+        "two objects WITHOUT a uid, 12% of the events carry body parts the rules do not look at (deletionTimestamp, foreign "
+        "finalizers, annotations, ownerReferences, status); after every event the index is read through __iter__/__getitem__ "
+        "AND through __contains__/__len__/__bool__ of Index, Store and the indices container. gate: a start-up through "
         "the real adjust_tasks, cluster-wide (2-3 resources + plain, one batch) or namespaced (1-2 resources x 1-2 "
         "namespaces; the first batch is empty), optionally later revisions (a resource / a namespace discovered later, a "
         "namespace deleted during the listing, a plain revision that respawns dead watchers), watchers whose listing "
         "answers 404, 0-3 listed objects each, staggered dyadic delays with ties, slow index functions, re-listing, "
-        "raising when= filters, suspended make_toggle (per kind and per object), short idle timeouts; distinct by the "
-        "label sequence.")
+        "raising when= filters, suspended make_toggle (per kind and per object), short idle timeouts, "
+        "settings.queueing.worker_limit 1-3 in a quarter of the runs, the operator stopped in the middle of the start-up in a "
+        "quarter of the runs (all watchers cancelled together); distinct by the label sequence. boot (whole operator): "
+        "2-3 kinds, >= 1 indexed, each with a random subset of on-event/create/resume/update/daemon/timer handlers (also none, "
+        "also no on-event handler), 0-3 objects per kind existing before the start (40% handled by a previous incarnation: "
+        "resume instead of create), LIST latency per kind 0-2 s, index functions 0-1 s, 0-3 creations/edits/deletions during the "
+        "start-up; distinct by kinds x handler sets x order of index/handler starts.")
 TRUSTED = [
-    "abstraction of results to script kinds (isinstance Mapping / None / exception class) and of bodies to (kind, ns/name/uid, label)",
+    "abstraction of results to script kinds (mapping result / None / exception class; whether a non-dict Mapping counts as a "
+    "mapping result is probed on the OperatorIndexer.replace under test) and of bodies to (kind, ns/name/uid, label); the other "
+    "body parts are varied (deletionTimestamp, foreign finalizers, annotations, ownerReferences, status) and must not matter",
     "label instrumentation: ToggleSet subclass + module-attribute wrappers of queueing.watcher/worker, indexing.index_resource, "
     "the processor and a scripted watching.infinite_watch (no source hooks); orchestration.adjust_tasks is called directly "
     "with a real Insights object (the orchestrator's own loop and its task monitoring are C19/C20's subject)",
-    "index values are JSON data without floats, index keys are strings or None; object uids are unique across kinds (as in Kubernetes)",
+    "index values are JSON data without floats, index keys are strings or None; object uids are unique across kinds (as in "
+    "Kubernetes); objects without a uid have unique (namespace, name) pairs across kinds",
+    "part S: harness/sim (virtual-time loop, fake API server with per-kind LIST latency added by a FakeSession subclass), "
+    "the handlers' own logs; the operator runs cluster-wide and standalone (no peering, no pause)",
     "events are modelled one after another: OperatorIndexers.replace/discard are synchronous and touch only the event's own "
     "object key (theorem others_untouched), so concurrent workers of different objects commute on the indices",
 ]
@@ -124,13 +153,22 @@ ASSUMPTIONS = [
     "indexing cycle (indexFail: toggle dropped, counted as the attempt — kopf 58a504d) and the dying watcher (die, "
     "leaked toggles) are modelled and tied (corpus F3_*, N1_* and ~6%/~12% of generated start-ups); a stranded toggle "
     "is proved fatal (gate_stuck_of_leak)",
-    "daemons/timers/change handlers are behind the same single wait_for(True) as @kopf.on.event handlers, which are what the gate runs observe",
+    "daemons/timers/change handlers are behind the same single wait_for(True) as @kopf.on.event handlers: in the A runs "
+    "only on-event handlers are registered and the `handle` label is the entry of process_resource_causes; that daemons, "
+    "timers and change handlers really start behind the gate is checked by the S runs (own kwargs of every handler kind)",
+    "the Lean retry memory is one record per object; the code keeps ONE memory for all objects without a uid (open finding "
+    "C17-F5): cases with several uid-less objects are checked by the oracle only (counted: index.tie skipped)",
+    "gate_can_open_iff has no worker limit: with settings.queueing.worker_limit below the number of listed objects of one "
+    "indexed kind the pending workers keep their toggles and the running ones wait for them — the gate never opens "
+    "(liveness, beyond C17; corpus N2_*, generated with worker_limit 1-3)",
 ]
 
 KINDS = ["kexa", "kexb", "kexc"]
 LATE_KIND = "kexd"      # a kind discovered after the start-up (second spawn_missing_watchers batch)
 GROUP, VERSION = "kopf.dev", "v1"
 F2_SIG = {"site": "OperatorIndexer.replace", "shape": "a non-dict Mapping result is unpacked by key (docs: strictly dict)"}
+F5_SIG = {"site": "inventory.ResourceMemories._build_key", "shape": "objects without a uid share one memory: the indexing "
+          "retry/exclusion record of one decides for the others"}
 
 
 # =================================================================================================
@@ -204,6 +242,14 @@ def gen_index_case(rng: random.Random) -> dict:
     for j in range(nobj):
         objs.append({"res": rng.choice(kinds), "name": f"o{j % 3}", "ns": rng.choice(["ns", "ns", None]),
                      "uid": f"u{j}", "gen": 0, "live": False})
+    if rng.random() < 0.08:
+        # one object WITHOUT a uid (kopf: "those rare objects that have no uid but are still exposed via the K8s
+        # API"): its identity is (namespace, name) alone — `make_key` must keep them apart from everything else.
+        # Sometimes two: they must stay apart in the indices, but they share ONE ResourceMemory (open finding C17-F5:
+        # attributed by the oracle; the Lean tie is skipped for such cases — its model has one memory per object).
+        for n_, o in enumerate(rng.sample(objs, min(len(objs), rng.choice([1, 2])))):
+            o["uid"] = None
+            o["name"] = f"nouid{n_}"
     events = []
     t = 0
     # deadlines worth hitting exactly: now + delay of a pending temporary error
@@ -229,12 +275,19 @@ def gen_index_case(rng: random.Random) -> dict:
                 deadlines.append(t + (ix["backoff"] if ix["backoff"] is not None else bk))
             if ix["timeout"] and s[0] in ("temp", "other"):
                 deadlines.append(t + ix["timeout"])
-        events.append({"t": t, "res": o["res"], "name": o["name"], "ns": o["ns"], "uid": o["uid"],
-                       "type": typ, "label": rng.choice([None, "a", "a", "a", "b"]), "script": script})
+        ev = {"t": t, "res": o["res"], "name": o["name"], "ns": o["ns"], "uid": o["uid"],
+              "type": typ, "label": rng.choice([None, "a", "a", "a", "b"]), "script": script}
+        if rng.random() < 0.12:
+            # parts of the body the documented rules do NOT look at: an object marked for deletion (with or without
+            # finalizers), annotated, owned … is a live object until its DELETED event
+            ev["extra"] = sorted(rng.sample(["deletionTimestamp", "finalizers", "annotations", "ownerReferences", "status"],
+                                            rng.choice([1, 1, 2, 3])))
+        events.append(ev)
         if typ == "DELETED":
             o["live"] = False
             o["gen"] += 1
-            o["uid"] = f"{o['uid'].split('-')[0]}-{o['gen']}"   # a recreated object gets a new uid
+            if o["uid"] is not None:
+                o["uid"] = f"{o['uid'].split('-')[0]}-{o['gen']}"   # a recreated object gets a new uid
         else:
             o["live"] = True
     return {"kind": "index", "kinds": kinds, "indexers": indexers, "default_backoff": bk, "events": events}
@@ -266,16 +319,19 @@ def realise(script: list) -> Any:
     raise ValueError(kind)
 
 
-def model_script(script: list) -> list:
-    """Abstraction of a result to the model's script kinds (what the code distinguishes)."""
-    if script[0] == "memo":        # isinstance(obj, collections.abc.Mapping)
-        return ["dict", script[1]]
+def model_script(script: list, memo_unpacked: bool = True) -> list:
+    """Abstraction of a result to the model's script kinds (what the code distinguishes): a non-dict
+    Mapping is a mapping result for `isinstance(obj, collections.abc.Mapping)` (the code as it is: open
+    finding F2) and a plain value for `type(obj) is dict` (proposals/fix-C17F2) — which of the two the
+    code under test does is PROBED on its own OperatorIndexer.replace (`memo_unpacked`), never assumed."""
+    if script[0] == "memo":
+        return ["dict", script[1]] if memo_unpacked else ["scalar", {str(k): v for k, v in script[1]}]
     return script
 
 
-def model_request(case: dict) -> list:
+def model_request(case: dict, memo_unpacked: bool = True) -> list:
     evs = [{"t": e["t"], "res": e["res"], "obj": objkey(e), "deleted": e["type"] == "DELETED",
-            "label": e["label"], "script": {i: model_script(s) for i, s in e["script"].items()}}
+            "label": e["label"], "script": {i: model_script(s, memo_unpacked) for i, s in e["script"].items()}}
            for e in case["events"]]
     return ["C17.run", case["indexers"], case["default_backoff"], evs]
 
@@ -316,17 +372,33 @@ async def run_index_case(case: dict) -> dict:
     memories = inventory.ResourceMemories()
     resources = {k: references.Resource(GROUP, VERSION, k, namespaced=True) for k in KINDS}
     loop = asyncio.get_running_loop()
-    snaps, call_log, errors = [], [], []
+    snaps, call_log, errors, views = [], [], [], []
+    probe = indexing.OperatorIndexer()                    # how does the code under test read a non-dict Mapping?
+    probe.replace(("ns", "probe", "probe"), ephemera.Memo({"probe-key": 1}))
+    memo_unpacked = "probe-key" in list(probe.index)
     uid2key: dict[str, str] = {}
     for e in case["events"]:
         loop.vtime = float(e["t"])          # SimLoop: virtual loop time, whole seconds
-        meta: dict[str, Any] = {"name": e["name"], "uid": e["uid"]}
+        meta: dict[str, Any] = {"name": e["name"]}
+        if e["uid"] is not None:
+            meta["uid"] = e["uid"]
         if e["ns"] is not None:
             meta["namespace"] = e["ns"]
         if e["label"] is not None:
             meta["labels"] = {"grp": e["label"]}
         body = {"apiVersion": f"{GROUP}/{VERSION}", "kind": e["res"].capitalize(), "metadata": meta, "spec": {"t": e["t"]}}
-        uid2key[e["uid"]] = objkey(e)
+        for x in e.get("extra", ()):
+            if x == "deletionTimestamp":
+                meta["deletionTimestamp"] = "2030-01-01T00:00:00Z"
+            elif x == "finalizers":
+                meta["finalizers"] = ["example.com/foreign"]      # (kopf's own would be patched away: no API here)
+            elif x == "annotations":
+                meta["annotations"] = {"example.com/note": "x"}
+            elif x == "ownerReferences":
+                meta["ownerReferences"] = [{"apiVersion": "v1", "kind": "Pod", "name": "p", "uid": "p-uid", "controller": True}]
+            elif x == "status":
+                body["status"] = {"phase": "Terminating"}
+        uid2key[memories._build_key(body)] = objkey(e)  # the memory key of the code under test (HEAD: `uid or ''`)
         cur.clear()
         cur.update(e["script"])
         calls.clear()
@@ -358,31 +430,68 @@ async def run_index_case(case: dict) -> dict:
             if ent:
                 mem[uid2key.get(uid, uid)] = ent
         snaps.append({"ix": view, "mem": mem})
-    return {"snaps": snaps, "calls": call_log, "errors": errors}
+        # every other read-only method of the views a handler can use (`in`, `len`, truth, lookups)
+        probes_k = KEYS + ["zz"]
+        probes_v = [0, 1, True, "a", "", [1], {"x": 1}, 7, "zz", None]
+        ro: dict[str, Any] = {"ids": list(indexers.indices), "n": len(indexers.indices),
+                              "has": {i: (i in indexers.indices) for i in [ix["id"] for ix in case["indexers"]] + ["nope"]},
+                              "ix": {}}
+        for iid in indexers.indices:
+            index = indexers.indices[iid]
+            ent: dict[str, Any] = {"len": len(index), "bool": bool(index),
+                                   "has": [[k, k in index] for k in probes_k], "missing_raises": None, "stores": []}
+            try:
+                index["zz-absent"]
+                ent["missing_raises"] = False
+            except KeyError:
+                ent["missing_raises"] = True
+            for k in index:
+                st = index[k]
+                ent["stores"].append([k, {"len": len(st), "bool": bool(st), "has": [[v, v in st] for v in probes_v]}])
+            ro["ix"][iid] = ent
+        views.append(ro)
+    return {"snaps": snaps, "calls": call_log, "errors": errors, "views": views, "memo_unpacked": memo_unpacked}
 
 
 # ---- the oracle: a dictionary reference model written from docs/indexing.rst --------------------
 def oracle_index(case: dict, obs: dict) -> list[tuple[str, dict, dict]]:
     """The documented rules; a failure is attributed to F2 only when it vanishes once a non-dict Mapping
-    is read the way the code reads it (and to F1 only when the views are equal up to Python's ==)."""
+    is read the way the code reads it, to F5 only when it vanishes once the objects without a uid share
+    one retry memory as they do in the code (and to F1 only when the views are equal up to Python's ==)."""
     fails = _oracle_index(case, obs, memo_as_dict=False)
-    if fails and _memo_seen(case, len(case["events"])):
-        alt = {(f[1].get("event"), f[1].get("index")): f[2] for f in _oracle_index(case, obs, memo_as_dict=True)}
+    memo, nouid = _memo_seen(case, len(case["events"])), len(_uidless(case)) > 1
+    if fails and (memo or nouid):
+        def ident(f: tuple) -> tuple:
+            return (f[1].get("event"), f[1].get("index"), f[2].get("site"))
 
-        def attribute(d: dict, sg: dict) -> dict:
-            if sg.get("site") != "index-content":
-                return sg
-            other = alt.get((d.get("event"), d.get("index")))
-            if other is None:
+        def left(memo_as_dict: bool, shared: bool) -> set:
+            return {ident(f) for f in _oracle_index(case, obs, memo_as_dict=memo_as_dict, uidless_shared=shared)}
+        alt2 = left(True, False) if memo else None          # the code's reading of a non-dict Mapping
+        alt5 = left(False, True) if nouid else None         # the code's one memory for all uid-less objects
+        alt25 = left(True, True) if memo and nouid else None
+
+        def attribute(f: tuple) -> dict:
+            if f[2].get("site") in ("index_resource", "OperatorIndexers", "OperatorIndices") and f[2].get("shape") != "wrong set of index functions invoked":
+                return f[2]
+            if alt2 is not None and ident(f) not in alt2:
                 return F2_SIG                   # gone once the Mapping is read as the code reads it
-            return sg
-        fails = [(w, d, attribute(d, sg)) for (w, d, sg) in fails]
+            if alt5 is not None and ident(f) not in alt5:
+                return F5_SIG                   # gone once the uid-less objects share one retry memory
+            if alt25 is not None and ident(f) not in alt25:
+                return F2_SIG                   # both readings are needed: both open findings contribute
+            return f[2]
+        fails = [(w, d, attribute((w, d, sg))) for (w, d, sg) in fails]
     return fails
 
 
-def _oracle_index(case: dict, obs: dict, memo_as_dict: bool) -> list[tuple[str, dict, dict]]:
+def _uidless(case: dict) -> set[str]:
+    return {objkey(e) for e in case["events"] if e["uid"] is None}
+
+
+def _oracle_index(case: dict, obs: dict, memo_as_dict: bool, uidless_shared: bool = False) -> list[tuple[str, dict, dict]]:
     """Returns failures as (what, detail, signature). Reads only the documented rules and the
-    implementation-level observations (views, call log, escaped errors)."""
+    implementation-level observations (views, call log, escaped errors). `uidless_shared` (attribution
+    run only): the retry/exclusion memory of objects without a uid is ONE record, as in the code."""
     fails: list[tuple[str, dict, dict]] = []
     ixs = {ix["id"]: ix for ix in case["indexers"]}
     vals: dict[tuple[str, str], dict] = {}       # (index, object) -> {key: value}: the latest results
@@ -393,29 +502,35 @@ def _oracle_index(case: dict, obs: dict, memo_as_dict: bool) -> list[tuple[str, 
     for n, e in enumerate(case["events"]):
         o = objkey(e)
         expect_calls = []
+        shared = uidless_shared and e["uid"] is None
+        if shared and e["type"] == "DELETED":   # (attribution run: the one shared memory is forgotten as a whole)
+            for iid in ixs:
+                for d_ in (excl, fails_in_row, first_fail):
+                    d_.pop((iid, "<no-uid>"), None)
         for iid, ix in ixs.items():
-            p = (iid, o)
+            pv = (iid, o)                       # the object's values in this index
+            p = (iid, "<no-uid>") if shared else pv     # its retry/exclusion record
             if ix["res"] != e["res"]:
                 continue                        # objects of other kinds never enter this index
             if e["type"] == "DELETED":
-                vals.pop(p, None)               # "deleted …: all associated values are removed"
+                vals.pop(pv, None)              # "deleted …: all associated values are removed"
                 excl.pop(p, None)
                 fails_in_row.pop(p, None)
                 first_fail.pop(p, None)
                 continue
             if ix["want"] is not None and e["label"] != ix["want"]:
-                vals.pop(p, None)               # "stops matching the filters: … removed"
+                vals.pop(pv, None)               # "stops matching the filters: … removed"
                 continue
             x = excl.get(p)
             if x == "forever" or (isinstance(x, tuple) and x[1] > e["t"]):
-                vals.pop(p, None)               # "exclude the failed resource from (future) indexing"
+                vals.pop(pv, None)               # "exclude the failed resource from (future) indexing"
                 continue
             if ix["retries"] is not None and fails_in_row.get(p, 0) >= ix["retries"]:
-                vals.pop(p, None)               # the retry limit is used up (incl. retries=0): permanent
+                vals.pop(pv, None)               # the retry limit is used up (incl. retries=0): permanent
                 excl[p] = "forever"
                 continue
             if ix.get("timeout") is not None and e["t"] - first_fail.get(p, e["t"]) >= ix["timeout"]:
-                vals.pop(p, None)               # "timeout= … the overall duration from the first failure": permanent
+                vals.pop(pv, None)               # "timeout= … the overall duration from the first failure": permanent
                 excl[p] = "forever"
                 continue
             expect_calls.append(iid)
@@ -423,24 +538,24 @@ def _oracle_index(case: dict, obs: dict, memo_as_dict: bool) -> list[tuple[str, 
             kind = s[0]
             mode = ix["errors"] or "ignored"    # "errors=IGNORED (the default)"
             if kind == "dict":
-                vals[p] = {canon(k): (k, v) for k, v in s[1]}
+                vals[pv] = {canon(k): (k, v) for k, v in s[1]}
                 excl.pop(p, None); fails_in_row.pop(p, None); first_fail.pop(p, None)
             elif kind == "memo" and memo_as_dict:   # (attribution run only: the code's reading)
-                vals[p] = {canon(k): (k, v) for k, v in s[1]}
+                vals[pv] = {canon(k): (k, v) for k, v in s[1]}
                 excl.pop(p, None); fails_in_row.pop(p, None); first_fail.pop(p, None)
             elif kind == "memo":                # "strictly dict — not … even a subclass of dict, such as kopf.Memo"
-                vals[p] = {canon(None): (None, {str(k): v for k, v in s[1]})}
+                vals[pv] = {canon(None): (None, {str(k): v for k, v in s[1]})}
                 excl.pop(p, None); fails_in_row.pop(p, None); first_fail.pop(p, None)
             elif kind == "scalar":              # "the key is assumed to be None"
-                vals[p] = {canon(None): (None, s[1])}
+                vals[pv] = {canon(None): (None, s[1])}
                 excl.pop(p, None); fails_in_row.pop(p, None); first_fail.pop(p, None)
             elif kind == "none" or (kind == "other" and mode == "ignored"):
                 excl.pop(p, None); fails_in_row.pop(p, None); first_fail.pop(p, None)   # "existing values … are preserved as-is"
             elif kind == "perm" or (kind == "other" and mode == "permanent"):
-                vals.pop(p, None)
+                vals.pop(pv, None)
                 excl[p] = "forever"
             else:                               # TemporaryError / arbitrary with errors=TEMPORARY
-                vals.pop(p, None)
+                vals.pop(pv, None)
                 delay = s[1] if kind == "temp" else (ix["backoff"] if ix["backoff"] is not None else case["default_backoff"])
                 fails_in_row[p] = fails_in_row.get(p, 0) + 1
                 first_fail.setdefault(p, e["t"])
@@ -483,6 +598,47 @@ def _oracle_index(case: dict, obs: dict, memo_as_dict: bool) -> list[tuple[str, 
                            "regression_of": "C17-F1"}
                 fails.append((f"event #{n}: index {iid} is {got}, the documented rules give {want}",
                               {"event": n, "index": iid, "got": got, "want": want}, sig))
+            # ---- the same index through every other read-only method of the views (what a handler's
+            #      `key in index`, `len(index)`, `if index:`, `value in index[key]` … answer)
+            ro = (obs.get("views") or [None] * (n + 1))[n]
+            if ro is not None and iid in ro["ix"] and strict(want) == strict(got):   # (a wrong content is reported above)
+                r = ro["ix"][iid]
+                wantk = {ck: vs for ck, vs in want.items() if vs}
+                bad = []
+                if r["len"] != len(wantk):
+                    bad.append(f"len(index) = {r['len']}, {len(wantk)} keys hold values")
+                if r["bool"] != bool(wantk):
+                    bad.append(f"bool(index) = {r['bool']}")
+                for k, has in r["has"]:
+                    if has != (canon(k) in wantk):
+                        bad.append(f"({k!r} in index) = {has}")
+                if r["missing_raises"] is not True:
+                    bad.append("index[<absent key>] does not raise KeyError")
+                seen_keys = set()
+                for k, st in r["stores"]:
+                    seen_keys.add(canon(k))
+                    wv = wantk.get(canon(k), [])
+                    if st["len"] != len(wv):
+                        bad.append(f"len(index[{k!r}]) = {st['len']}, {len(wv)} objects contribute")
+                    if st["bool"] != bool(wv):
+                        bad.append(f"bool(index[{k!r}]) = {st['bool']}")
+                    for v, has in st["has"]:
+                        if has != any(x == v for x in wv):      # `in` on a collection of values: Python's ==
+                            bad.append(f"({v!r} in index[{k!r}]) = {has}")
+                if seen_keys != set(wantk):
+                    bad.append(f"iter(index) yields {sorted(seen_keys)}")
+                if bad:
+                    fails.append((f"event #{n}: index {iid} answers wrongly through its read-only methods: {bad[:4]}; "
+                                  f"the documented rules give {want}", {"event": n, "index": iid, "views": bad[:8]},
+                                  {"site": "index-views", "shape": "a read-only method of Index/Store disagrees with the index content"}))
+        ro = (obs.get("views") or [None] * (n + 1))[n]
+        if ro is not None:
+            ids = sorted(ixs)
+            if sorted(ro["ids"]) != ids or ro["n"] != len(ids) or any(ro["has"].get(i) is not True for i in ids) \
+                    or ro["has"].get("nope") is not False:
+                fails.append((f"event #{n}: the indices container lists {ro['ids']} (len {ro['n']}, has {ro['has']}), "
+                              f"the registered index handlers are {ids}", where,
+                              {"site": "OperatorIndices", "shape": "the read-only container of indices disagrees with the registered index handlers"}))
     return fails
 
 
@@ -638,7 +794,11 @@ def gen_gate_case(rng: random.Random) -> dict:
             "toggle_delay": [rng.choice([0, 0, 0, 1 / 64, 1 / 16, 1 / 4]) for _ in range(8)],
             "obj_toggle_delay": rng.choice([0, 0, 0, 1 / 64, 1 / 16, 1 / 4]),
             "idle_timeout": rng.choice([5.0, 5.0, 0.25, 1 / 16]),
-            "handler_delay": rng.choice([0, 0, 1 / 64, 1 / 4])}
+            "handler_delay": rng.choice([0, 0, 1 / 64, 1 / 4]),
+            # settings.queueing.worker_limit: workers beyond it stay pending WITH their toggles made (white-box N2)
+            "worker_limit": rng.choice([None] * 9 + [1, 2, 3]),
+            # the operator is stopped in the middle of the start-up (all watchers cancelled together)
+            "stop_at": rng.choice([None] * 8 + [1 / 64, 1 / 4, 1.0])}
 
 
 async def run_gate_case(case: dict) -> dict:
@@ -665,6 +825,7 @@ async def run_gate_case(case: dict) -> dict:
         return _wname(plural_of[resource], ns)
 
     cur_obj: "dict[asyncio.Task, tuple[str, str]]" = {}
+    entered: "set[asyncio.Task]" = set()      # tasks whose current cycle has entered index_resource
     ungated: "set[asyncio.Task]" = set()
     crashed: list[str] = []
     watcher_of: "dict[asyncio.Task, str]" = {}
@@ -682,10 +843,13 @@ async def run_gate_case(case: dict) -> dict:
 
         def is_on(self) -> bool:
             res = super().is_on()
-            frame = sys._getframe(1)
-            if frame.f_code.co_name == "watcher":                 # the check before a per-object toggle
-                k = watcher_of.get(asyncio.current_task())
-                key = frame.f_locals.get("key")
+            k = watcher_of.get(asyncio.current_task())
+            if k is not None:                                     # asked by a watcher task: the check before a per-object toggle
+                frame, key = sys._getframe(1), None               # (wherever the test lives: the watcher's frame holds `key`)
+                while frame is not None and key is None:
+                    cand = frame.f_locals.get("key")
+                    key = cand if isinstance(cand, tuple) and len(cand) == 2 else None
+                    frame = frame.f_back
                 labels.append(["check", k, str(key[1]) if key else None, res, self.snap()])
             return res
 
@@ -727,7 +891,6 @@ async def run_gate_case(case: dict) -> dict:
                 elif ro is not None:
                     # kopf 58a504d: dropped in the `finally:` / the throttled branch although
                     # index_resource did not return (raised, skipped, cancelled): the attempt counts
-                    obslog.append(("index-attempt-failed", ro[0], ro[1]))
                     labels.append(["indexFail", ro[0], ro[1], self.snap()])
 
         async def wait_for(self, state_: bool) -> None:
@@ -774,7 +937,8 @@ async def run_gate_case(case: dict) -> dict:
     async def event_fn(param: str, uid: str, namespace: Any, **_: Any) -> None:
         k = _wname(param, namespace)
         obslog.append(("handler-start", k, uid))
-        labels.append(["handle", k, uid, gate.snap()])
+        if not any(l[0] == "handle" and l[1] == k and l[2] == uid for l in labels[cycle_from.get((k, uid), 0):]):
+            labels.append(["handle", k, uid, gate.snap()])      # (process_resource_causes was not seen entering)
         if case.get("handler_delay"):
             await asyncio.sleep(case["handler_delay"])
 
@@ -792,6 +956,8 @@ async def run_gate_case(case: dict) -> dict:
     settings = configuration.OperatorSettings()
     settings.posting.enabled = False
     settings.queueing.idle_timeout = case["idle_timeout"]
+    if case.get("worker_limit") is not None:
+        settings.queueing.worker_limit = case["worker_limit"]     # pending workers hold their toggles unstarted
     indexers = indexing.OperatorIndexers()
     indexers.ensure(registry._indexing.get_all_handlers())
     memories = inventory.ResourceMemories()
@@ -803,9 +969,16 @@ async def run_gate_case(case: dict) -> dict:
     real_infinite_watch = watching.infinite_watch
 
     async def index_resource_logged(**kw: Any) -> None:
-        await real_index_resource(**kw)
         ro = cur_obj.get(asyncio.current_task())
+        entered.add(asyncio.current_task())
+        try:
+            await real_index_resource(**kw)
+        except BaseException:
+            if ro is not None:
+                obslog.append(("index-raised", ro[0], ro[1]))      # the attempt is over (a filter raised, …): kopf 58a504d
+            raise
         if ro is not None:
+            obslog.append(("index-returned", ro[0], ro[1]))
             labels.append(["index", ro[0], ro[1], gate.snap()])
             if asyncio.current_task() in ungated:       # `operator_indexed is None`: no drop, no wait
                 labels.append(["skip", ro[0], ro[1], gate.snap()])
@@ -864,6 +1037,15 @@ async def run_gate_case(case: dict) -> dict:
         await asyncio.Event().wait()            # the watch stays open, silent
 
     real_processor = processing.process_resource_event
+    real_causes = processing.process_resource_causes
+    cycle_from: dict[tuple[str, str], int] = {}
+
+    async def causes_logged(**kw: Any) -> Any:
+        # `handle` = process_resource_causes begins: on-event AND change handlers, daemons, timers are all behind it
+        ro = cur_obj.get(asyncio.current_task())
+        if ro is not None:
+            labels.append(["handle", ro[0], ro[1], gate.snap()])
+        return await real_causes(**kw)
 
     async def processor(*, resource: Any, raw_event: Any, **kw: Any) -> Any:
         k = wname(resource, raw_event["object"]["metadata"].get("namespace"))
@@ -876,6 +1058,8 @@ async def run_gate_case(case: dict) -> dict:
             idle.discard((k, u))
             labels.append(["again", k, u, gate.snap()])
         started = len(labels)
+        cycle_from[(k, u)] = started
+        entered.discard(task)
         try:
             return await real_processor(
                 lifecycle=lifecycles.all_at_once, registry=registry, settings=settings, indexers=indexers,
@@ -885,10 +1069,11 @@ async def run_gate_case(case: dict) -> dict:
             mine = [l for l in labels[started:] if len(l) > 2 and l[1] == k and l[2] == u]
             names = [l[0] for l in mine]
             cancelled = sys.exc_info()[0] is asyncio.CancelledError
+            # for the oracle: the cycle is over; `skipped` = it never reached the indexing (error throttler)
+            obslog.append(("cycle-skipped" if task not in entered else "cycle-ended", k, u))
             if "index" not in names and "indexFail" not in names and not cancelled:
                 # the cycle of a worker WITHOUT an own toggle ended without index_resource returning
                 # (it raised and the throttler swallowed it, or the throttler skipped the cycle)
-                obslog.append(("index-attempt-failed", k, u))
                 labels.append(["indexFail", k, u, gate.snap()])
             if "index" not in names and not cancelled:
                 idle.add((k, u))
@@ -902,6 +1087,7 @@ async def run_gate_case(case: dict) -> dict:
             ungated.discard(task)
 
     indexing.index_resource = index_resource_logged       # processing calls `indexing.index_resource`
+    processing.process_resource_causes = causes_logged    # looked up as a module global by process_resource_event
     queueing.worker = worker_logged
     queueing.watcher = watcher_logged
     watching.infinite_watch = scripted_watch
@@ -942,6 +1128,10 @@ async def run_gate_case(case: dict) -> dict:
         horizon = 2.0 + max([0.0] + [sum(i["delay"] for i in its) for its in case["streams"].values()]) \
             + sum(case["index_delay"].values()) + sum(case["toggle_delay"]) \
             + 12 * (case.get("handler_delay") or 0) + 2 * case["idle_timeout"] + 12 * (case.get("obj_toggle_delay") or 0)
+        if case.get("stop_at") is not None:
+            # the operator exits in the middle of the start-up: all watchers are cancelled at once (as the orchestrator
+            # does), each depletes and closes its workers in its `finally:` — nothing may pass the gate on the way out
+            horizon = max(0.0, case["stop_at"] - t0)
         await asyncio.sleep(horizon)
         crashed = [repr(t.exception()) for t in ensemble.watcher_tasks.values()
                    if t.done() and not t.cancelled() and t.exception() is not None
@@ -954,6 +1144,7 @@ async def run_gate_case(case: dict) -> dict:
         if tasks:
             await asyncio.gather(*tasks, return_exceptions=True)
         indexing.index_resource = real_index_resource
+        processing.process_resource_causes = real_causes
         queueing.worker = real_worker
         queueing.watcher = real_watcher
         watching.infinite_watch = real_infinite_watch
@@ -969,7 +1160,9 @@ def oracle_gate(case: dict, obs: dict) -> list[tuple[str, dict, dict]]:
     indexed_res = {r["name"] for r in case["resources"] if r["indexed"]} | \
                   {rv["add_resource"]["name"] for rv in case["revisions"] if rv.get("add_resource", {}).get("indexed")}
     startup = {_wname(r["name"], ns) for r in case["resources"] for ns in case["namespaces"]}
-    known: set[str] = set()           # indexed kinds whose watcher has been spawned so far
+    # indexed kinds to be awaited: the start-up kinds from the very beginning (also before their watcher exists:
+    # that is what the orchestration blocker is for), the others once their watcher has been spawned
+    known: set[str] = {w for w in startup if w.split("@")[0] in indexed_res}
     listed: set[str] = set()
     initial: set[tuple[str, str]] = set()
     indexed_once: set[tuple[str, str]] = set()
@@ -984,8 +1177,11 @@ def oracle_gate(case: dict, obs: dict) -> list[tuple[str, dict, dict]]:
                 indexed_once.add((o[1], o[2]))      # the object is gone: nothing of it is left to be indexed
         elif o[0] == "listed-yield":
             listed.add(o[1])
-        elif o[0] in ("index-end", "index-attempt-failed"):
-            indexed_once.add((o[1], o[2]))          # a raised / throttled indexing cycle is the attempt (kopf 58a504d)
+        elif o[0] in ("index-end", "index-returned", "index-raised", "cycle-skipped", "cycle-ended"):
+            # the object has been through the indexing once: its index function ended; or index_resource returned
+            # without calling it / raised (a failed filter: the attempt counts, kopf 58a504d); or the whole cycle was
+            # skipped by the error throttler. NOT: its toggle was dropped (that is the mechanism, not the fact)
+            indexed_once.add((o[1], o[2]))
         elif o[0] == "handler-start":
             missing_kinds = sorted(known - listed)
             missing_objs = sorted(initial - indexed_once)
@@ -1011,6 +1207,154 @@ def oracle_gate(case: dict, obs: dict) -> list[tuple[str, dict, dict]]:
         seen.add(key)
         out.append(f)
     return out
+
+
+# =================================================================================================
+# part S — the gate end to end: a real operator against the fake API (harness/props/sim_c17.py)
+# =================================================================================================
+BOOT_HANDLERS = ["event", "create", "resume", "update", "daemon", "timer"]
+BOOT_SIG = {"site": "start-up gate (whole operator)", "shape": "a handler started before the initial index was complete"}
+BOOT_VIEW_SIG = {"site": "start-up gate (whole operator)", "shape": "a handler does not see an initially listed object in the index it was given"}
+
+
+def gen_boot_case(rng: random.Random) -> dict:
+    """2-3 kinds with objects that exist before the operator starts; at least one kind is indexed; the
+    kinds carry every sort of handler the property names, in random subsets (also kinds WITHOUT an
+    on-event handler, kinds with index functions only, kinds with daemons/timers only)."""
+    n = rng.choice([2, 2, 3])
+    kinds = []
+    for i in range(n):
+        hs = sorted(rng.sample(BOOT_HANDLERS, rng.choice([0, 1, 1, 2, 2, 3, 4])))
+        kinds.append({"name": KINDS[i], "indexed": rng.random() < 0.6, "handlers": hs})
+    if not any(k["indexed"] for k in kinds):
+        rng.choice(kinds)["indexed"] = True
+    if not any(k["handlers"] for k in kinds):
+        rng.choice(kinds)["handlers"] = [rng.choice(BOOT_HANDLERS)]
+    objects, index_delay = [], {}
+    for k in kinds:
+        for j in range(rng.choice([0, 1, 1, 2, 3])):
+            nm = f"{k['name'][-1]}{j}"
+            objects.append({"kind": k["name"], "name": nm, "v": rng.choice([0, 1, 2, 7, 9]),
+                            "handled_before": rng.random() < 0.4})     # → resume handlers instead of creation handlers
+            if k["indexed"]:
+                index_delay[f"{k['name']}/{nm}"] = rng.choice(DELAYS)
+    list_delay = {k["name"]: rng.choice([0, 0, 1 / 64, 1 / 4, 1 / 4, 1.0, 2.0]) for k in kinds}
+    timeline = []
+    for _ in range(rng.choice([0, 0, 1, 2, 3])):
+        k = rng.choice(kinds)
+        mine = [o for o in objects if o["kind"] == k["name"]]
+        t = rng.choice([1 / 64, 1 / 4, 1 / 2, 1.0, 1.5, 2.5, 4.0])
+        if mine and rng.random() < 0.6:
+            o = rng.choice(mine)
+            timeline.append([t, rng.choice(["edit", "edit", "delete"]), k["name"], o["name"], rng.choice([3, 4, 5])])
+        else:
+            timeline.append([t, "create", k["name"], f"{k['name'][-1]}n{len(timeline)}", rng.choice([3, 4, 5])])
+    settings: dict[str, Any] = {"queueing.idle_timeout": rng.choice([5.0, 5.0, 0.25, 1 / 16])}
+    end = 4.0 + max(list_delay.values()) + sum(index_delay.values())
+    return {"kind": "boot", "runner": "harness.props.sim_c17:run_boot", "kinds": kinds, "objects": objects,
+            "list_delay": list_delay, "index_delay": index_delay, "timeline": sorted(timeline, key=lambda x: x[0]),
+            "handler_delay": rng.choice([0, 0, 1 / 64, 1 / 4]), "timer_initial_delay": rng.choice([0, 0, 1 / 4]),
+            "settings": settings, "end": end}
+
+
+def oracle_boot(case: dict, tr: dict) -> list[tuple[str, dict, dict]]:
+    """The property, over what the handler functions themselves logged: when a change handler, a daemon,
+    a timer (or an on-event handler) of ANY kind starts, every object of every indexed kind that existed
+    when the operator started — and has not been deleted since — has been through its index function,
+    and the handler finds it in the index it was given (with its value, if nobody edited it)."""
+    fails: list[tuple[str, dict, dict]] = []
+    indexed = {k["name"] for k in case["kinds"] if k["indexed"]}
+    initial = [(o["kind"], o["name"], o["v"]) for o in case["objects"] if o["kind"] in indexed]
+    touched = {(x[2], x[3]) for x in case.get("timeline", []) if x[1] in ("edit", "delete")}
+    deleted_at = {(x[2], x[3]): x[0] for x in reversed(case.get("timeline", [])) if x[1] == "delete"}
+    t0 = next((l[1] for l in tr["log"] if l[0] == "operator-started"), 0.0)
+    done: set[tuple[str, str]] = set()
+    for n, l in enumerate(tr["log"]):
+        if l[0] == "index-end":
+            done.add((l[1], l[2]))
+        elif l[0] == "start":
+            _, htype, kind, name, t, seen = l
+            alive = [(k, nm, v) for (k, nm, v) in initial if not ((k, nm) in deleted_at and t0 + deleted_at[(k, nm)] <= t)]
+            missing = sorted((k, nm) for (k, nm, _v) in alive if (k, nm) not in done)
+            if missing:
+                fails.append((f"the {htype} handler of {kind}/{name} started at t={t} (log entry #{n}) while the initially "
+                              f"listed objects {missing} had not been through their index functions yet",
+                              {"entry": n, "handler": htype, "not_indexed": missing}, BOOT_SIG))
+                break
+            unseen = []
+            for (k, nm, v) in alive:
+                ix = (seen or {}).get(f"idx_{k}")
+                if ix is None or nm not in ix or ((k, nm) not in touched and ix[nm] != [v]):
+                    unseen.append([k, nm, None if ix is None else ix.get(nm, "absent")])
+            if unseen:
+                fails.append((f"the {htype} handler of {kind}/{name} started at t={t} (log entry #{n}) and does not find the "
+                              f"initially listed objects {unseen} in the indices of its kwargs", {"entry": n, "handler": htype,
+                                                                                               "unseen": unseen}, BOOT_VIEW_SIG))
+                break
+    return fails
+
+
+def run_boot_cases(cases: list[dict], wall: float = 60.0, batch: int = 6) -> list[dict]:
+    from harness.sim import pool
+    out = []
+    for case, res in zip(cases, pool.run_many(cases, wall=wall, batch=batch)):
+        tr = res.get("trace")
+        if tr is None or tr.get("sim_error"):
+            out.append({"case": case, "obs": None, "fails": [], "broken": res if tr is None else {"sim_error": tr["sim_error"]}})
+            continue
+        fails = oracle_boot(case, tr)
+        if tr.get("errors"):
+            fails.append((f"the operator did not run/stop cleanly: {tr['errors'][:2]}", {}, {"site": "operator", "shape": "crash"}))
+        out.append({"case": case, "obs": tr, "fails": fails})
+    return out
+
+
+def summarise_boot(results: list[dict], source: str, sm: dict | None = None) -> dict:
+    sm = sm if sm is not None else _new_summary()
+    for r in results:
+        case, tr = r["case"], r["obs"]
+        if tr is None:
+            if len(sm["tie"]) < 5:
+                sm["tie"].append(("whole-operator start-up run did not finish (stall / harness error)",
+                                  {"case": case, "result": {k: str(v)[-1500:] for k, v in r["broken"].items()}}))
+            continue
+        starts = [l for l in tr["log"] if l[0] == "start"]
+        ends = [n for n, l in enumerate(tr["log"]) if l[0] == "index-end"]
+        first_start = next((n for n, l in enumerate(tr["log"]) if l[0] == "start"), None)
+        indexed = {k["name"] for k in case["kinds"] if k["indexed"]}
+        n_init = sum(1 for o in case["objects"] if o["kind"] in indexed)
+        key = canon([[k["indexed"], k["handlers"]] for k in case["kinds"]] + [l[:3] for l in tr["log"] if l[0] in ("start", "index-start", "index-end")][:60])
+        sm["cases"].append(("b" + _h(key), bool(starts) and n_init > 0))
+        for l in starts:
+            _count(sm, "boot.handler_started", l[1])
+        _count(sm, "boot.initially_listed_indexed_objects", n_init)
+        _count(sm, "boot.kinds", len(case["kinds"]))
+        _count(sm, "boot.kind_without_on_event_but_other_handlers",
+               any(k["handlers"] and "event" not in k["handlers"] for k in case["kinds"]))
+        # the gate was load-bearing: some handler's own object was delivered before the last initial object was indexed
+        slowest = max([case["list_delay"][k] for k in indexed] + [0])
+        _count(sm, "boot.gate_load_bearing", any(case["list_delay"][k["name"]] < slowest and k["handlers"]
+                                                 and any(o["kind"] == k["name"] for o in case["objects"]) for k in case["kinds"]))
+        _count(sm, "boot.handlers_ran", bool(starts))
+        _count(sm, "boot.source", source)
+        sm["traces"] += 1
+        if starts and n_init and len(sm["samples"]) < 2:
+            sm["samples"].append({"boot": [[k["name"], k["indexed"], k["handlers"]] for k in case["kinds"]],
+                                  "log": [l[:5] for l in tr["log"][:14]]})
+        for what, detail, sig in r["fails"]:
+            if len(sm["oracle"]) < 12:
+                sm["oracle"].append((what, {"case": case, "detail": detail, "log": [l[:5] for l in tr["log"]][:80]}, sig))
+    return sm
+
+
+def boot_shard(args: tuple) -> dict:
+    seed, n, repo, _with_lean = args
+    _prepare(repo)
+    rng = random.Random(f"C17-boot-{seed}")
+    sm = _new_summary()
+    cases = [gen_boot_case(rng) for _ in range(n)]
+    summarise_boot(run_boot_cases(cases), "generated", sm)
+    return sm
 
 
 # =================================================================================================
@@ -1079,6 +1423,7 @@ def _h(key: str) -> str:
 def summarise_index(results: list[dict], source: str, sm: dict | None = None, with_lean: bool = True) -> dict:
     sm = sm if sm is not None else _new_summary()
     reqs = []
+    tied: list[dict] = []
     for r in results:
         case, obs = r["case"], r["obs"]
         key, nontrivial, tags = r["cls"]
@@ -1092,17 +1437,23 @@ def summarise_index(results: list[dict], source: str, sm: dict | None = None, wi
         _count(sm, "index.objects", len({objkey(e) for e in case["events"]}))
         _count(sm, "index.source", source)
         for what, detail, sig in r["fails"]:
-            known = sig == F2_SIG
-            if sum(1 for f in sm["oracle"] if (f[2] == F2_SIG) == known) < 12:
+            known = sig in (F2_SIG, F5_SIG)
+            if sum(1 for f in sm["oracle"] if (f[2] in (F2_SIG, F5_SIG)) == known) < 12:
                 sm["oracle"].append((what, {"case": case, "detail": detail, "impl": obs["snaps"]}, sig))
-        reqs.append(model_request(case))
+        _count(sm, "index.uidless_objects", len(_uidless(case)))
+        _count(sm, "index.events_with_foreign_body_parts", sum(1 for e in case["events"] if e.get("extra")))
+        if len(_uidless(case)) > 1:
+            _count(sm, "index.tie", "skipped: several uid-less objects (one shared memory, finding F5; oracle only)")
+            continue
+        tied.append(r)
+        reqs.append(model_request(case, obs.get("memo_unpacked", True)))
     if with_lean and reqs:
         try:
             outs = _ask(reqs)
         except leanio.LeanError as e:
             sm["lean_error"] = (str(e), e.log[-2000:])
             return sm
-        for r, out in zip(results, outs):
+        for r, out in zip(tied, outs):
             model = out[1] if out and out[0] == "ok" else out
             impl: Any = r["obs"]["snaps"]
             if any(x is not None for x in r["obs"]["errors"]):
@@ -1142,6 +1493,10 @@ def summarise_gate(results: list[dict], source: str, sm: dict | None = None, wit
         _count(sm, "gate.closed_again_after_opening", reclosed)
         _count(sm, "gate.later_revisions", len(case["revisions"]))
         _count(sm, "gate.failed_indexing_cycle", "indexFail" in names)
+        _count(sm, "gate.worker_limit", case.get("worker_limit"))
+        _count(sm, "gate.stopped_during_startup", case.get("stop_at") is not None)
+        if case.get("worker_limit") is not None:
+            _count(sm, "gate.opened_under_worker_limit", handled > 0)
         _count(sm, "gate.source", source)
         sm["traces"] += 1
         for what, detail, sig in r["fails"]:
@@ -1252,9 +1607,9 @@ def run(ctx: Ctx) -> None:
     _prepare(str(ctx.repo))
     thorough = ctx.tier == "thorough"
     # ---- corpus first
-    icorp, gcorp = [], []
+    icorp, gcorp, bcorp = [], [], []
     for _name, data in load_corpus(ID):
-        (icorp if data["case"]["kind"] == "index" else gcorp).append(data["case"])
+        {"index": icorp, "gate": gcorp, "boot": bcorp}[data["case"]["kind"]].append(data["case"])
     if icorp:
         _merge(ctx, summarise_index(run_index_cases(icorp), "corpus"))
     if gcorp:
@@ -1270,6 +1625,11 @@ def run(ctx: Ctx) -> None:
         _merge(ctx, sm)
     for sm in _map(gate_shard, gjobs, thorough):
         _merge(ctx, sm)
+    # ---- part S: whole-operator start-ups (subprocess workers on all cores: harness/sim/pool)
+    n_boot = ctx.budget(48, 1600)
+    rng = random.Random(f"C17-boot-{base}")
+    _merge(ctx, summarise_boot(run_boot_cases(bcorp + [gen_boot_case(rng) for _ in range(n_boot)],
+                                              batch=6 if not thorough else 25), "corpus+generated"))
     ctx.exhaustive = False
 
 
@@ -1283,12 +1643,17 @@ def search(ctx: Ctx, broken: list) -> None:
         for sm in _map(fn, [(base + i, n // 16, str(ctx.repo), False) for i in range(16)], True):
             for what, replay_, sig in sm["oracle"]:
                 ctx.oracle_fail(what, replay_, sig)
+    rng = random.Random(f"C17-boot-search-{base}")
+    sm = summarise_boot(run_boot_cases([gen_boot_case(rng) for _ in range(ctx.budget(320, 3200))], batch=20), "search")
+    for what, replay_, sig in sm["oracle"]:
+        ctx.oracle_fail(what, replay_, sig)
 
 
 def replay(ctx: Ctx, data: dict) -> None:
     _prepare(str(ctx.repo))
     case = data["replay"]["case"] if "replay" in data else data["case"]
-    res = run_index_cases([case]) if case["kind"] == "index" else run_gate_cases([case])
+    res = run_index_cases([case]) if case["kind"] == "index" else run_gate_cases([case]) if case["kind"] == "gate" \
+        else run_boot_cases([case])
     for r in res:
         for what, detail, sig in r["fails"]:
             print(f"replay: {what}", file=sys.stderr)
